@@ -254,6 +254,68 @@ pub fn replay(a: &Args) -> i32 {
         Ok((7, _)) => {}
         other => mismatches.push(json!({"what": format!("an exact route of {} bytes was not dispatched to its service: {:?}", long_exact.len(), other.ok())})),
     }
+    // routers grown from a common base are routers of their own: what one of them has looked up or
+    // registered plays no part in what another one does
+    {
+        let base = Router::new().route("/a", Tagged(1)).route("/t/*rest", Tagged(5));
+        let r1 = base.clone().route("/x", Tagged(2)).route("/only1", Tagged(6));
+        let r2 = base.clone().route("/x", Tagged(3));
+        let r3 = base.clone();
+        let mut probe = |r: &Router, which: &str, path: &str, want: u64, mismatches: &mut Vec<Value>| {
+            evaluations += 1;
+            match std::panic::catch_unwind(std::panic::AssertUnwindSafe(|| call(r, path))) {
+                Ok((svc, _)) if svc == want => {}
+                Ok((svc, _)) => mismatches.push(json!({"what": format!("routers cloned from one base: {which} dispatched {path:?} to service {svc}, its own table says {want}")})),
+                Err(_) => mismatches.push(json!({"what": format!("routers cloned from one base: {which} panicked on {path:?}")})),
+            }
+        };
+        for _ in 0..2 {
+            probe(&r1, "the first clone", "/x", 2, &mut mismatches);
+            probe(&r2, "the second clone", "/x", 3, &mut mismatches);
+            probe(&r3, "the untouched clone", "/x", 0, &mut mismatches);
+            probe(&r1, "the first clone", "/only1", 6, &mut mismatches);
+            probe(&r2, "the second clone", "/only1", 0, &mut mismatches);
+            probe(&base, "the base", "/x", 0, &mut mismatches);
+            for r in [&r1, &r2, &r3, &base] {
+                probe(r, "a clone", "/a", 1, &mut mismatches);
+                probe(r, "a clone", "/t/zz", 5, &mut mismatches);
+            }
+        }
+    }
+    // a large table: every one of tens of thousands of exact routes reaches its own service
+    {
+        let n_routes = a.u64("routes", 70_000);
+        let mut big = Router::new();
+        for i in 0..n_routes {
+            big = big.route(&format!("/item/{i}"), Tagged(i + 10));
+        }
+        let mut wrong = 0u64;
+        let mut first: Option<(u64, u64)> = None;
+        // (one clone serves all the requests: cloning a table of this size per request is what takes time)
+        let mut one = big.clone();
+        for i in 0..n_routes {
+            evaluations += 1;
+            let got = std::panic::catch_unwind(std::panic::AssertUnwindSafe(|| {
+                let resp = futures::executor::block_on(tower::Service::call(&mut one, Request::new(Bytes::new()).with_route(format!("/item/{i}")))).unwrap();
+                resp.headers().get("svc").and_then(|s| s.parse::<u64>().ok()).unwrap_or(0)
+            }));
+            match got {
+                Ok(svc) if svc == i + 10 => {}
+                Ok(svc) => {
+                    wrong += 1;
+                    first.get_or_insert((i, svc));
+                }
+                Err(_) => {
+                    wrong += 1;
+                    first.get_or_insert((i, u64::MAX));
+                    one = big.clone();
+                }
+            }
+        }
+        if wrong > 0 {
+            mismatches.push(json!({"what": format!("a table of {n_routes} exact routes: {wrong} paths reached another route's service (first: /item/{} -> service {})", first.unwrap().0, first.unwrap().1)}));
+        }
+    }
     // generated servers mounted through add_rpc_service: a request under /<service-name>/ reaches
     // that service (which answers something other than NotFound for a method it has), any other
     // route gets the router's NotFound
